@@ -17,6 +17,23 @@ theorem C22_bound (cap : Nat) (tr : List Ev) (s' : St) (hr : run ⟨cap, []⟩ t
   rw [hc] at h1
   omega
 
+/-- non-vacuity: the premise of `C22_bound` holds for three workers on a two-slot semaphore, two of them inside reads (the bound is attained), the third still idle -/
+example : ∃ s', run ⟨2, []⟩ [.spawn, .spawn, .spawn, .acquire 0, .readBegin 0, .acquire 1, .readBegin 1] = some s' ∧
+    s'.workers = [.reading, .reading, .idle] ∧ readingCount s' = 2 :=
+  ⟨_, rfl, rfl, rfl⟩
+
+/-- witness helper: an interleaving of three workers on two slots -/
+private def nv_tr : List Ev := [.spawn, .spawn, .spawn, .acquire 0, .readBegin 0, .acquire 1, .readBegin 1,
+  .readEnd 0, .block 0, .acquire 2, .readBegin 2, .unblock 0, .readEnd 1, .release 1, .exit 1]
+
+/-- non-vacuity: a longer interleaving (read ends, worker 0 blocks on delivery and gives its slot to worker 2) also satisfies the premise, and `C22_bound` applied to it gives the bound -/
+example : ∃ s', run ⟨2, []⟩ nv_tr = some s' ∧ nv_tr.length = 15 ∧
+    s'.workers = [.idle, .done, .reading] ∧ readingCount s' ≤ 2 :=
+  ⟨_, rfl, rfl, rfl, C22_bound 2 nv_tr _ rfl⟩
+
+/-- non-vacuity: the premise is a real restriction — a third acquire while both slots are held is not a run -/
+example : run ⟨2, []⟩ [.spawn, .spawn, .spawn, .acquire 0, .acquire 1, .acquire 2] = none := rfl
+
 /-- A worker blocked on delivery or dispatch holds no slot. -/
 theorem blocked_holds_nothing : held .blocked = false := rfl
 
